@@ -37,11 +37,16 @@ type vpC16Env struct {
 	// withdrawal submits: finalized ones can be claimed
 	submits        []crypto.Hash
 	submitsPending []*common.VersionedTransaction
+	// one-time keys of finalized outputs (bound to their transactions for good)
+	finalKeys []*crypto.Key
 }
 
 // noteFinalized updates the generator's bookkeeping for a finalized transaction.
 func (e *vpC16Env) noteFinalized(tx *common.VersionedTransaction) {
 	e.addOuts(tx)
+	for _, o := range tx.Outputs {
+		e.finalKeys = append(e.finalKeys, o.Keys...)
+	}
 	if tx.DepositData() != nil {
 		for _, a := range e.assets {
 			if a.id == tx.Asset {
@@ -196,8 +201,8 @@ func (e *vpC16Env) finalize(s *common.Snapshot, txs []*common.VersionedTransacti
 }
 
 func TestVP_C16_validated_finalizes(t *testing.T) {
-	c := kit.New(t, "C16", "rapid: histories of 6..20 snapshots on a real node (7 chains, round transitions): each snapshot batches 1..4 pending transactions (deposits of XIN / BTC (capacity 2500, amounts up to 1200 so the cap is reachable) / an unlisted asset, several deposits of one asset pending at once; deposits naming a bound asset id with altered chain/key text, which validation may refuse; transfers with 1..3 inputs and outputs of finalized outputs at any output index; withdrawal submits with and without change, repeatedly on one asset; withdrawal claims of finalized submits); every member is pushed through the node's own validateSnapshotTransaction (ordinary path first for 'pending' snapshots that are finalized later, finalization path otherwise); oracle: validation passed for every member => the finalization path writes the snapshot without error or panic and it becomes readable; the listed known-finding classes (pending+finalized deposits reaching capacity; contradicting asset bindings pending together) are excluded by construction and counted; non-trivial = snapshot with >=2 members or >=2 deposits of one asset pending across consecutive snapshots; distinct by snapshot hash")
-	c.Require("batch>=2", "pending-deposits-same-asset", "transfer", "transfer-multi-input", "submit", "submit-with-change", "claim", "deposit-info-variant", "late-finalize", "near-capacity", "submit-odd-output")
+	c := kit.New(t, "C16", "rapid: histories of 6..20 snapshots on a real node (7 chains, round transitions): each snapshot batches 1..4 pending transactions (deposits of XIN / BTC (capacity 2500, amounts up to 1200 so the cap is reachable) / an unlisted asset, several deposits of one asset pending at once; deposits naming a bound asset id with altered chain/key text, which validation may refuse; transfers with 1..3 inputs and outputs of finalized outputs at any output index, one in eight carrying in some output a one-time key of an already finalized transaction (validation may refuse); withdrawal submits with and without change, repeatedly on one asset; withdrawal claims of finalized submits); every member is pushed through the node's own validateSnapshotTransaction (ordinary path first for 'pending' snapshots that are finalized later, finalization path otherwise); oracle: validation passed for every member => the finalization path writes the snapshot without error or panic and it becomes readable; the listed known-finding classes (pending+finalized deposits reaching capacity; contradicting asset bindings pending together) are excluded by construction and counted; non-trivial = snapshot with >=2 members or >=2 deposits of one asset pending across consecutive snapshots; distinct by snapshot hash")
+	c.Require("batch>=2", "pending-deposits-same-asset", "transfer", "transfer-multi-input", "submit", "submit-with-change", "claim", "deposit-info-variant", "late-finalize", "near-capacity", "submit-odd-output", "output-key-of-finalized-transaction")
 	kit.SetChecks(kit.N(60, 1200))
 	rapid.Check(t, func(t *rapid.T) {
 		e := vpC16Start("c16")
@@ -254,6 +259,20 @@ func TestVP_C16_validated_finalizes(t *testing.T) {
 									rest = rest.Sub(amt)
 								}
 								tx.AddOutputWithType(common.OutputTypeScript, []*common.Address{acct("to")}, common.NewThresholdScript(1), amt, vpKSeed("c16-tr", e.seq, k))
+							}
+							if len(e.finalKeys) > 0 && rapid.IntRange(0, 7).Draw(t, "reuse_key") == 0 {
+								// a wallet reusing an output seed: one output (any position) carries
+								// a one-time key that already belongs to a finalized transaction.
+								// Nothing is demanded of validation (it refuses this), but what it
+								// lets through must finalize
+								pos := rapid.IntRange(0, len(tx.Outputs)-1).Draw(t, "reuse_pos")
+								k := *e.finalKeys[rapid.IntRange(0, len(e.finalKeys)-1).Draw(t, "reuse_of")]
+								tx.Outputs[pos].Keys[0] = &k
+								freeform = true
+								cl = append(cl, "output-key-of-finalized-transaction")
+								if pos < len(tx.Outputs)-1 {
+									cl = append(cl, "reused-key-not-in-last-output")
+								}
 							}
 						}))
 						cl = append(cl, "transfer")
